@@ -550,6 +550,46 @@ func checkGoType(it descItem, classes []string) (error, bool, []string) {
 			classes = append(classes, "gotype:gogo")
 			nontrivial = true
 		}
+		// the field metadata the Go type carries in its struct tags (number, proto name, JSON name: what jsonpb and the
+		// amino-JSON signing path go by) against the descriptor
+		if fd := loadUniverse().gogo[it.File]; fd != nil {
+			if md := flatten(fd).messages[full]; md != nil {
+				byNum := map[string]*descriptorpb.FieldDescriptorProto{}
+				for _, f := range md.Field {
+					byNum[fmt.Sprint(f.GetNumber())] = f
+				}
+				for i := 0; i < rt.Elem().NumField(); i++ {
+					tag, ok := rt.Elem().Field(i).Tag.Lookup("protobuf")
+					if !ok {
+						continue
+					}
+					parts := strings.Split(tag, ",")
+					if len(parts) < 3 {
+						continue
+					}
+					f := byNum[parts[1]]
+					if f == nil {
+						return pbt.Failf("C20/gotype-struct-tag", "gogoproto type %s field %s: tag %q names field number %s, which %s does not have", rt, rt.Elem().Field(i).Name, tag, parts[1], full), false, classes
+					}
+					name, json := "", ""
+					for _, kv := range parts[3:] {
+						if strings.HasPrefix(kv, "name=") {
+							name = kv[5:]
+						}
+						if strings.HasPrefix(kv, "json=") {
+							json = kv[5:]
+						}
+					}
+					if json == "" {
+						json = name
+					}
+					if name != f.GetName() || (f.JsonName != nil && json != f.GetJsonName()) {
+						return pbt.Failf("C20/gotype-struct-tag", "gogoproto type %s field %s: tag says name=%s json=%s, the descriptor says %s / %s", rt, rt.Elem().Field(i).Name, name, json, f.GetName(), f.GetJsonName()), false, classes
+					}
+					classes = append(classes, "gotype:struct-tag")
+				}
+			}
+		}
 		if n, ok := v.(interface{ XXX_MessageName() string }); ok && n.XXX_MessageName() != full {
 			return pbt.Failf("C20/gotype-descriptor-mismatch", "gogoproto type %s is registered as %s but names itself %s", rt, full, n.XXX_MessageName()), false, classes
 		}
